@@ -136,5 +136,16 @@ def run(ctx):
 
 
 def replay(rep):
-    print("re-run bin/check C02; failing case:", rep["replay"])
-    return 0
+    """Re-run the whole operand table of the recorded opcode on the recorded path."""
+    r = rep["replay"]
+    if "form" not in r:
+        print("documentation-level finding; re-run bin/check C02:", r)
+        return 0
+    exe = vlib.build_engine("xemu", "plain")
+    scratch = vlib.scratch_dir("C02r")
+    p = subprocess.run([exe, "--tier", "quick", "--classes", "int", "--path", r.get("path", "emulate"), "--only", r["opcode"]],
+                       stdout=subprocess.PIPE, env=vlib.scrub_env(scratch=scratch), timeout=1200)
+    shutil.rmtree(scratch, ignore_errors=True)
+    bad = [l for l in p.stdout.decode().splitlines() if '"t":"viol"' in l]
+    print("\n".join(b[:500] for b in bad[:5]) if bad else "replayed without violation")
+    return 1 if bad else 0
